@@ -322,7 +322,7 @@ impl TxInfo {
 #[derive(Clone)]
 enum RMsg {
     Prepare { tx: usize, sh: usize },
-    Vote { tx: usize, sh: usize, vote: PrepareVote },
+    Vote { tx: usize, sh: usize, vote: PrepareVote, forged: bool },
     Commit { tx: usize, sh: usize },
     Abort { tx: usize, sh: usize },
 }
@@ -469,19 +469,30 @@ impl Real {
                 let ops = t.pos(*sh).map_or_else(|| "-".to_string(), |p| show_ops(&t.ops[p]));
                 format!("P{tx}.{sh}[{ops}]")
             },
-            RMsg::Vote { tx, sh, vote } => format!("V{tx}.{sh}.{}", self.show_vote(vote)),
+            RMsg::Vote { tx, sh, vote, .. } => format!("V{tx}.{sh}.{}", self.show_vote(vote)),
             RMsg::Commit { tx, sh } => format!("C{tx}.{sh}"),
             RMsg::Abort { tx, sh } => format!("A{tx}.{sh}"),
         }
     }
     fn snapshot(&self, sh: usize) -> BTreeMap<u64, String> {
         let mut m = BTreeMap::new();
-        for k in self.stores[sh].scan("") {
-            if k.starts_with("_dtx:") {
-                continue; // the participant's own persisted state (witness replays age it through the store)
+        // one pass per key prefix in use over the store's entries (`scan` + `get` per key walks every
+        // slab of the router and costs ~10x more; `scan("")` merges and sorts all shards)
+        for prefix in ["k", "emb:", "node:", "table:", "edge:"] {
+            for (k, v) in self.stores[sh].scan_filter_map(prefix, |k, t| Some((kid(k), val_of(t)))) {
+                m.insert(k, v);
             }
-            if let Ok(t) = self.stores[sh].get(&k) {
-                m.insert(kid(&k), val_of(&t));
+        }
+        m
+    }
+    /// the same through `scan` + `get` (the router's per-class read path); compared once per script
+    fn snapshot_via_get(&self, sh: usize) -> BTreeMap<u64, String> {
+        let mut m = BTreeMap::new();
+        for prefix in ["k", "emb:", "node:", "table:", "edge:"] {
+            for k in self.stores[sh].scan(prefix) {
+                if let Ok(t) = self.stores[sh].get(&k) {
+                    m.insert(kid(&k), val_of(&t));
+                }
             }
         }
         m
@@ -726,6 +737,9 @@ impl Real {
                     Ok(tx) => {
                         let d = self.txs.len();
                         self.by_real.insert(tx.tx_id, d);
+                        for o in ops.iter().flatten() {
+                            self.hits.push(format!("op.{}", &o.show()[..1]));
+                        }
                         self.txs.push(TxInfo { real: tx.tx_id, shards: shards.clone(), ops, embs, begun_at: self.clock });
                         for sh in shards {
                             self.pool.push(RMsg::Prepare { tx: d, sh });
@@ -797,13 +811,17 @@ impl Real {
                             self.votes_cast.entry((tx, sh)).or_default().push(matches!(vote, PrepareVote::Yes { .. }));
                             self.cast.push((tx, sh, matches!(vote, PrepareVote::Yes { .. })));
                             let s = format!("vote {}", self.show_vote(&vote));
-                            self.pool.push(RMsg::Vote { tx, sh, vote });
+                            self.pool.push(RMsg::Vote { tx, sh, vote, forged: false });
                             s
                         }
                     },
-                    Some(RMsg::Vote { tx, sh, vote }) => {
+                    Some(RMsg::Vote { tx, sh, vote, forged }) => {
+                        let stray = self.txs.get(tx).is_some_and(|t| !t.shards.contains(&sh));
                         let r = self.record_vote(tx, sh, vote);
                         self.drain();
+                        if forged {
+                            self.hits.push(format!("forged.{}.{}", if stray { "stray_shard" } else { "participant_or_unknown_tx" }, r.replace(' ', "_")));
+                        }
                         r
                     },
                     Some(RMsg::Commit { tx, sh }) => {
@@ -816,6 +834,18 @@ impl Real {
                                 self.hits.push(format!("late.commit_finished.{}", if r.success { "reapplied" } else { "absent" }));
                             }
                             if r.success {
+                                if let Some(p) = self.txs[tx].pos(sh) {
+                                    let mut cur = before[sh].clone();
+                                    for o in &self.txs[tx].ops[p] {
+                                        if let Op::Cas(..) = o {
+                                            let was = cur.get(&o.write_key()).cloned();
+                                            o.apply_to(&mut cur);
+                                            self.hits.push(format!("cas.{}", if cur.get(&o.write_key()).cloned() != was { "written" } else { "skipped_or_same" }));
+                                        } else {
+                                            o.apply_to(&mut cur);
+                                        }
+                                    }
+                                }
                                 applying = Some((sh, tx));
                                 self.applied.push((sh, tx));
                                 if self.decided.contains(&(tx, true)) {
@@ -974,7 +1004,7 @@ impl Real {
             ["forge", tx, sh, v] => {
                 let (tx, sh): (usize, usize) = (tx.parse().unwrap(), sh.parse().unwrap());
                 let vote = self.forged_vote(tx, sh, v);
-                self.pool.push(RMsg::Vote { tx, sh, vote });
+                self.pool.push(RMsg::Vote { tx, sh, vote, forged: true });
                 "ok".into()
             },
             _ => "bad-op".into(),
@@ -1215,6 +1245,13 @@ fn run_script(m: &mut Model, rep: &mut Report, stream: &str, setup: &Setup, line
             model_ok = false;
         }
     }
+    for sh in 0..real.stores.len() {
+        let (a, b) = (real.snapshot(sh), real.snapshot_via_get(sh));
+        if a != b {
+            rep.disagree(stream, json!({"setup": init, "script": lines, "at": format!("end: shard {sh} read through scan+get")}), &format!("{b:?}"), &format!("{a:?}"));
+            out.disagreed = true;
+        }
+    }
     out.tags.append(&mut real.hits);
     for (_, r) in &real.reasons {
         out.tags.push(format!("reason.{r}"));
@@ -1412,6 +1449,7 @@ fn gen_schedule_mode(r: &mut Rng, setup: &Setup, max_events: usize, rep: &mut Re
             choices.push(("tick", 3));
             choices.push(("sweep", 3));
             choices.push(("cabort", 1));
+            choices.push(("forge", 3));
             choices.push(("ccommit", if prepared_tx.is_empty() { 1 } else { 25 }));
             if extended {
                 choices.push(("stale", 3));
@@ -1498,6 +1536,22 @@ fn gen_schedule_mode(r: &mut Rng, setup: &Setup, max_events: usize, rep: &mut Re
                 format!("{pick} {sh} {}", r.below(3))
             },
             "cabort" => format!("cabort {}", r.below(real.txs.len() as u64 + 1)),
+            "forge" => {
+                // inside the alphabet: any NO / CONFLICT (also for a tx that is not begun yet), a YES only
+                // tagged with a shard that is not a participant of an existing tx (zero embedding)
+                let tx = r.below(real.txs.len() as u64 + 1) as usize;
+                let sh = r.below(setup.n as u64 + 2) as usize;
+                let strays: Vec<usize> = real.txs.get(tx).map_or(vec![], |t| (0..setup.n + 2).filter(|s| !t.shards.contains(s)).collect());
+                match r.below(10) {
+                    0..=3 => format!("forge {tx} {sh} n"),
+                    4 | 5 => format!("forge {tx} {sh} c{}", r.below(real.txs.len() as u64 + 1)),
+                    _ if !strays.is_empty() => {
+                        let keys: Vec<u64> = (0..2).filter(|_| r.chance(1, 2)).collect();
+                        format!("forge {tx} {} y{}:{}:e0", r.pick(&strays), 900 + real.pool.len(), dotted(&keys))
+                    },
+                    _ => format!("forge {tx} {sh} n"),
+                }
+            },
             _ => {
                 if !prepared_tx.is_empty() && r.chance(9, 10) {
                     format!("ccommit {}", r.pick(&prepared_tx))
@@ -1641,6 +1695,76 @@ fn directed_late() -> Vec<(String, Setup, Vec<String>)> {
     out
 }
 
+/// Forged / mis-tagged votes inside the alphabet, run with the directed-late histories.  The first is
+/// the shortest history in which the participant-membership test of `all_voted` is the only thing
+/// between a stray YES and a commit without every participant's YES: T0 over shards {0,1} of 3, T1
+/// holds T0's key on shard 1, a YES tagged "shard 2" reaches the coordinator after shard 0's YES and
+/// BEFORE shard 1's CONFLICT.
+fn directed_forged() -> Vec<(&'static str, Setup, Vec<String>)> {
+    let s3 = || Setup { n: 3, t_units: 2, maxc: 100, lock_to: 1000, wallclock: false, age_parts: false };
+    let l = |v: &[&str]| v.iter().map(|x| x.to_string()).collect::<Vec<String>>();
+    let b = |sh: &[usize], ops: &[&str], embs: &[u64]| begin_line(sh, &ops.iter().map(|o| parse_ops(o)).collect::<Vec<_>>(), embs);
+    vec![
+        ("stray-yes-before-conflict", s3(), {
+            let mut v = l(&["preload 0 1 5", "preload 1 2 6"]);
+            v.push(b(&[0, 1], &["p1=7", "p2=8"], &[1, 2])); //   0,1 = PREPARE(T0)
+            v.push(b(&[1, 2], &["p2=9", "p3=1"], &[1, 2])); //   2,3 = PREPARE(T1)
+            v.extend(l(&[
+                "deliver 2", //            4 = shard 1's YES for T1 (holds k2)
+                "deliver 0", "deliver 5", // 5 = shard 0's YES for T0, recorded
+                "forge 0 2 y900:5:e0", "deliver 6", // the stray YES "from shard 2" is recorded: 2 votes, 2 participants
+                "ccommit 0", //            must be refused: shard 1 has not voted
+                "deliver 1", "deliver 7", // 7 = shard 1's CONFLICT(T1) -> aborting, 8,9 = ABORT(T0)
+                "ccommit 0", "deliver 8", "deliver 9",
+                "deliver 3", "deliver 4", "deliver 10", "ccommit 1", "deliver 11", "deliver 12",
+            ]));
+            v
+        }),
+        ("forged-no-conflict-stray-votes", s3(), {
+            let mut v = l(&["preload 0 1 5", "forge 0 0 n", "forge 0 7 c3"]); // 0,1: votes for a tx that does not exist yet
+            v.push(b(&[0, 1], &["c1?5=6+e1=2", "u2.1=3+n2=4"], &[1, 2])); //  2,3 = PREPARE(T0)
+            v.extend(l(&[
+                "deliver 1", //            the early CONFLICT tagged shard 7 is now recorded for T0
+                "deliver 2", "deliver 3", "deliver 4", "deliver 5", // both real YES: all participants voted, the stray CONFLICT makes it abort
+                "ccommit 0", "deliver 6", "deliver 7", "deliver 0",
+            ]));
+            v.push(b(&[0, 1], &["c1?5=6+e1=2", "u2.1=3+n2=4"], &[1, 2])); //  8,9 = PREPARE(T1)
+            v.extend(l(&[
+                "deliver 8", "deliver 9", "deliver 10", "forge 1 2 y901:1:e0", "deliver 12", "deliver 11", // stray YES between the two real ones
+                "forge 1 5 n", "deliver 13", //  a NO that arrives after the tx is Prepared: wrong phase
+                "ccommit 1", "deliver 14", "deliver 15", "forge 1 0 c0", "deliver 16", "deliver 12",
+            ]));
+            v
+        }),
+    ]
+}
+
+/// Two transactions reach the SAME storage key under DIFFERENT logical keys (`a` through a prefixed
+/// kind, `b` by naming the prefixed key directly): the workload breaks the lock discipline, both are
+/// prepared together on shard 0, T1 (`b`) commits on both shards, T0 (`a`) times out and its ABORT
+/// re-installs T0's undo image over T1's committed write.  Lean:
+/// `abort_restores_shard_without_lock_discipline_witness`.
+fn alias_histories() -> Vec<(&'static str, Setup, Vec<String>)> {
+    let s2 = || Setup { n: 2, t_units: 2, maxc: 100, lock_to: 1000, wallclock: false, age_parts: false };
+    let b = |sh: &[usize], ops: &[&str], embs: &[u64]| begin_line(sh, &ops.iter().map(|o| parse_ops(o)).collect::<Vec<_>>(), embs);
+    let mk = |a: &str, bb: &str| {
+        let mut v = vec![b(&[0, 1], &[a, "p2=8"], &[1, 2]), b(&[0, 1], &[bb, "p3=10"], &[1, 2])];
+        for l in ["deliver 0", "deliver 2", "deliver 3", "deliver 5", "deliver 6", "ccommit 1", "deliver 7", "deliver 8", "tick 3", "sweep", "deliver 9"] {
+            v.push(l.to_string());
+        }
+        v
+    };
+    vec![
+        ("embed-vs-put-emb-key", s2(), mk("e1=7", "p10001=9")),
+        ("node-create-vs-put-node-key", s2(), mk("n1=7", "p20001=9")),
+        ("table-insert-vs-put-table-key", s2(), mk("i1=7", "p30001=9")),
+        ("table-update-vs-put-table-key", s2(), mk("u1.2=7", "p30001=9")),
+        ("edge-create-vs-put-edge-key", s2(), mk("g1.2.3=0".trim_end_matches("=0"), "p50123=9")),
+        ("put-row-key-vs-table-update", s2(), mk("p40102=7", "u1.2=9")),
+        ("delete-emb-key-vs-embed", s2(), mk("d10001", "e1=9")),
+    ]
+}
+
 /// The two counter-traces over the EXTENDED alphabet (Lean: `…_outside_quantifier_witness`).
 fn witnesses() -> Vec<(&'static str, Setup, Vec<String>)> {
     let l = |v: &[&str]| v.iter().map(|x| x.to_string()).collect::<Vec<String>>();
@@ -1680,6 +1804,11 @@ const EXPECTED: &[&str] = &[
     "late.prepare_finished.refused_key_held", "late.prepare_finished.reprepared", "late.commit_finished.absent",
     "late.commit_finished.reapplied", "late.abort_finished.absent", "late.abort_finished.discarded_again",
     "late.abort_finished.after_overlapping_commit",
+    "op.p", "op.d", "op.e", "op.n", "op.N", "op.g", "op.i", "op.u", "op.U", "op.c", "cas.written", "cas.skipped_or_same",
+    "forged.stray_shard.voted_none", "forged.stray_shard.verr_wrong_phase_prepared",
+    "forged.stray_shard.verr_not_found", "forged.participant_or_unknown_tx.voted_none",
+    "forged.participant_or_unknown_tx.voted_aborting", "forged.participant_or_unknown_tx.verr_duplicate",
+    "forged.participant_or_unknown_tx.verr_not_found",
 ];
 
 /// Does the script, run on fresh REAL objects only, trip the monitor `class`?
@@ -1770,6 +1899,16 @@ fn main() {
         if rep.samples.is_empty() {
             rep.sample(json!({"stream": "directed-late", "name": name, "setup": setup.init_line(), "script": lines}));
         }
+    }
+
+    // ---- forged / mis-tagged votes inside the alphabet
+    for (name, setup, lines) in directed_forged() {
+        let o = run_script(&mut m, &mut rep, "directed-forged", &setup, &lines, true);
+        if o.tags.iter().any(|t| t == "outside_alphabet_event") {
+            rep.note(&format!("directed-forged template {name} left the alphabet (model flagged an event !outside)"));
+        }
+        record(&mut rep, &mut m, "directed-forged", &setup, &lines, &o);
+        rep.sample(json!({"stream": "directed-forged", "name": name, "setup": setup.init_line(), "script": lines}));
     }
 
     // ---- directed templates
@@ -1918,6 +2057,30 @@ fn main() {
     rep.observe(json!({"stream": "outside-quantifier random schedules", "monitor_hits_by_class": ext_hits,
         "note": "with lock expiry / cleanup_stale / recover in the alphabet the monitors do fire; by design these are not violations of C03"}));
 
+    // ---- workloads that break the lock discipline (same storage key under two logical keys): the
+    //      model flags the second `begin` as outside the alphabet; what the monitors then see on the
+    //      REAL objects is recorded as an observation (candidate finding, not yet a violation)
+    for (name, setup, lines) in alias_histories() {
+        let o = run_script(&mut m, &mut rep, "lock-discipline", &setup, &lines, true);
+        rep.case("lock-discipline", None);
+        for t in &o.tags {
+            rep.hit(t);
+        }
+        let lost = o.observations.iter().any(|x| x.starts_with("tensor_chain.2pc/abort_changed_shard"));
+        rep.hit(if lost { "alias.abort_changed_shard" } else { "alias.harmless" });
+        rep.observe(json!({
+            "candidate_finding": "tensor_chain.distributed_tx.participant/abort_undoes_commit_via_storage_key_alias",
+            "history": name, "setup": setup.init_line(), "script": lines,
+            "reproduced_on_real_objects": lost && !o.disagreed,
+            "in_quantifier_violations": o.violations.iter().map(|v| v.0.clone()).collect::<Vec<_>>(),
+            "monitor_hits": o.observations,
+            "note": "prepare() locks Transaction::affected_key() but captures / restores Transaction::storage_key(): two transactions that reach one storage key under different logical keys are prepared together, and the abort of one rolls back the other's committed write. The theorems assume the lock discipline (Model.lean lockDiscipline); Lean witness abort_restores_shard_without_lock_discipline_witness. Recorded as an observation until the coordinator decides."
+        }));
+        if !(lost && !o.disagreed) {
+            rep.note(&format!("lock-discipline history {name} did NOT reproduce on the real objects (behaviour changed?)"));
+        }
+    }
+
     // ---- the two counter-traces over the extended alphabet: observations, never violations
     for (name, setup, lines) in witnesses() {
         let o = run_script(&mut m, &mut rep, "outside-quantifier", &setup, &lines, false);
@@ -1959,6 +2122,6 @@ fn main() {
         let _ = (k, v);
     }
     rep.note("coordinator timeouts are produced on a virtual clock through the public persistence API (to_state -> bitcode -> load_from_store with shifted started_at); a small stream uses the untouched wall clock");
-    rep.note("Transaction kinds other than Put/Delete, WAL logging and the coordinator-local handle_prepare lock manager are not exercised (asserted empty after every event)");
+    rep.note("WAL logging and the coordinator-local handle_prepare lock manager are not exercised (the latter is asserted empty after every event); TensorStore::put never fails, so the rollback branch of TxParticipant::commit is unreachable");
     rep.write(&args.out);
 }
